@@ -40,6 +40,9 @@ METHODS = {
     "deepali/modules/flow.py": {
         "ExpFlow": ["forward", "inverse"],
     },
+    "deepali/spatial/generic.py": {
+        "GenericSpatialTransform": ["inverse", "update"],
+    },
 }
 
 CALLS = {
